@@ -69,6 +69,7 @@ def run(ctx):
         ctx.sample({'config': res['config'], 'strong_order_read_from_solver': res['p'], 'identities': res['queries']})
         c02.report(ctx, res)
     # loop tiling (symbolic, real integrate) ...
+    c02.purity_obligations(ctx)      # the step analysed above is the step taken at every point of a solve
     lt = c12.tasks_for('quick')[:2]
     for t, (st_, res) in zip(lt, pmap(c12.run_one, lt)):
         name = f"integrate tiling nout={t[0]} max_steps={t[1]}"
@@ -148,6 +149,8 @@ def replay(data):
         res = tiling_task(tuple(r['task']))
         print('replay C01 tiling:', res['bad'])
         return bool(res['bad'])
+    if r.get('kind') == 'purity':
+        return c02.replay(data)
     # a local-order defect found by the series analysis: first confirm the coefficient numerically (C02 replay), then measure
     # the empirical strong order of the real sdeint against a closed form
     ok = c02.replay(data)
